@@ -151,3 +151,18 @@ PROPS['C18'] = {
 MANIFEST_TEXT['C18'] = {'text': 'Operation histories over feature-value objects checked against an executable reference map (per-object map<feature, uint16>, defaults, Sill overrides, range rule, name-table labels) with full read-back after each update.',
                         'design_ref': '4.9', 'note': 'histories and synthesised tables are sampled; label language fallback is not modelled (one-directional check)', 'technique': _T + 'operation histories vs executable reference model'}
 NOT_APPLICABLE.pop('C18')
+
+PROPS['C14'] = {
+    'level': 'exploration',
+    'batches': [{'mode': 'lz4', 'quick': 2400, 'thorough': 200000, 'chunk': 30}, {'mode': 'lz4c', 'quick': 60000, 'thorough': 6000000, 'chunk': 2000}],
+    'rule': 'lz4 (end to end): one run = an Awami font whose Silf and/or Glat is served in the compressed layout produced by a seeded encoder of valid LZ4 encodings (or the shipped encoding), '
+            'half of the runs with bit-rot/truncation/torn faults on the compressed bytes or header; loaded faces are compared bit-for-bit (self-report + 3..20 segments) with a twin serving '
+            'the reference decoder\'s plaintext; lz4c (component): lz4::decompress on exact-size heap buffers vs the reference decoder; distinct = distinct plan hash; '
+            'non-trivial = the compressed face loaded and was compared, or the component call was judged',
+    'require_probes': ['lz4:clean-accepted', 'lz4:faulted-rejected', 'lz4:table-compressed', 'lz4c:valid-decoded', 'lz4c:mutated-accepted-agrees'],
+    'assumptions': _ASSUME + ['the reference LZ4 block decoder (sim/lz4.cpp, ~25 lines, from the block format definition) is the model; the seeded encoder is validated against it on every block'],
+}
+MANIFEST_TEXT['C14'] = {'text': 'Storage-format knob (plaintext vs valid LZ4 encodings from a seeded encoder) and storage faults on compressed blocks, end to end through gr_make_face with a plaintext twin, '
+                                'plus the decoder driven directly against a reference decoder under ASan on exact-size buffers.',
+                        'design_ref': '4.7', 'note': 'only the Awami fonts can carry compressed tables (Silf >= 4.x layout, Glat 3.0); encodings and faults are sampled', 'technique': _T + 'storage-format twin + reference decoder'}
+NOT_APPLICABLE.pop('C14')
